@@ -71,6 +71,7 @@ func runC13(t *Trace, r *Rng, tier string, _ []string) {
 	must(err)
 	defer os.RemoveAll(tmpRoot)
 	pointsSeen, pointsRolled := 0, 0
+	midReopens, deleteAlls := 0, 0
 	for h := 0; h < nHist; h++ {
 		keep := []int{1, 2, 3, 5, 5}[r.Intn(5)]
 		unsafe := r.Chance(60)
@@ -85,8 +86,28 @@ func runC13(t *Trace, r *Rng, tier string, _ []string) {
 		must(err)
 		nBatches := r.Range(3, 12)
 		var batches [][]c01Op
+		reopenAt := -1
+		if r.Chance(40) { // the index is closed and opened again somewhere inside the history
+			reopenAt = r.Range(2, nBatches)
+		}
 		for b := 1; b <= nBatches; b++ {
+			if b == reopenAt {
+				if unsafe {
+					time.Sleep(300 * time.Millisecond)
+				}
+				must(idx.Close())
+				idx, err = bleve.OpenUsing(dir, kv)
+				must(err)
+				midReopens++
+			}
 			ops := c01GenOps(r, r.Range(1, 5), idSpace, keySpace)
+			if r.Chance(15) { // a batch that only deletes, and deletes everything: the newest segments die
+				ops = ops[:0]
+				for i := 0; i <= idSpace; i++ {
+					ops = append(ops, c01Op{kind: 'd', key: fmt.Sprintf("doc%d", i)})
+				}
+				deleteAlls++
+			}
 			ops = append(ops, c01Op{kind: 's', key: "seq", val: fmt.Sprint(b)})
 			batches = append(batches, ops)
 			bt := idx.NewBatch()
@@ -162,7 +183,25 @@ func runC13(t *Trace, r *Rng, tier string, _ []string) {
 			}
 			v, _ := ridx.GetInternal([]byte("seq"))
 			t.Emit(cat+"/seq", true, "int "+hs("seq"), fmtVal(v))
-			c01Observe(t, cat, ridx, idSpace, keySpace, r)
+			// a rolled-back index whose files were damaged makes the segment code panic: that is an answer too
+			panicked := func() (p bool) {
+				defer func() {
+					if x := recover(); x != nil {
+						t.Emit(cat+"/panic", true, "count", "panic-reading-the-rolled-back-index:"+strings.ReplaceAll(oneLine(fmt.Sprint(x)), " ", "_"))
+						p = true
+					}
+				}()
+				c01Observe(t, cat, ridx, idSpace, keySpace, r)
+				return false
+			}()
+			if panicked {
+				func() {
+					defer func() { _ = recover() }()
+					ridx.Close()
+				}()
+				os.RemoveAll(cp)
+				continue
+			}
 			// the rolled-back index accepts new writes
 			extra := c01GenOps(r, 3, idSpace, keySpace)
 			bt := ridx.NewBatch()
@@ -194,4 +233,6 @@ func runC13(t *Trace, r *Rng, tier string, _ []string) {
 	}
 	t.Set("rollback_points_listed", pointsSeen)
 	t.Set("rollback_points_rolled_back_and_reopened", pointsRolled)
+	t.Set("histories_with_close_and_reopen_inside", midReopens)
+	t.Set("delete_everything_batches", deleteAlls)
 }
